@@ -418,9 +418,11 @@ theorem resolvePublicKey1_notFound_store (n : Nat) (s : Store) (kid : Kid) (rm :
     · split at h
       · simp [eKeyNotFound, eNotFound] at h
       · split at h
-        · cases h
-        · simp [eBadJwk, eNotFound] at h
-        · cases h
+        · simp [eUnsupportedType, eNotFound] at h
+        · split at h
+          · cases h
+          · simp [eBadJwk, eNotFound] at h
+          · cases h
     · rename_i e he
       cases h
       rw [resolverResolve_notFound_store n s rm ha _ he]
